@@ -261,6 +261,23 @@ def pg_judge_log(log):
         if c in comps: out.append((c, None))
     return out
 
+def pg_reconnect_in_write_tx(log):
+    """True if a connection was closed while its open transaction held writes and the same commit interval then
+    went on with statements on another connection (SessionCache.reconnect in the middle of a write transaction)"""
+    open_writes, closed_with_writes = {}, None
+    for e in log:
+        if e[0] == 'mark':
+            if e[1] in ('ack', 'caught'): open_writes, closed_with_writes = {}, None
+            continue
+        no, tx, verb, w = e
+        if verb in ('COMMIT', 'ROLLBACK'): open_writes.pop(no, None)
+        elif verb == 'CLOSE':
+            if open_writes.pop(no, False): closed_with_writes = no
+        else:
+            if isinstance(tx, int) and w: open_writes[no] = True
+            if closed_with_writes is not None and no != closed_with_writes and not verb.startswith('AUTOCOMMIT'): return True
+    return False
+
 def pg_tx_state(log, pos):
     """state of the newest connection's transaction when the fault fired"""
     cur = [e for e in log[:pos] if e[0] != 'mark']
@@ -404,7 +421,8 @@ def account(sub, path, pack, tokens, kind, pc, plan, x, outcomes, stats):
     comp, k = bad[0]
     if path == 'pg':
         sig = 'pg|%s|%s|%s' % ('+'.join(fclass), txs, 'session-continued' if x.exc is None else 'error-propagated')
-        if not (fclass == ['reconnectable'] and txs == 'open-write-tx' and x.exc is None): sig += '|' + comp
+        if 'reconnectable' in fclass and pg_reconnect_in_write_tx(log): sig = 'pg|reconnectable|open-write-tx|session-continued'
+        else: sig += '|' + comp
         report(sub, path, tokens, kind, plan, comp, site, pc, x, k, None, sig=sig, extra=dict(server_log=log[:60], all=[c for c, _ in bad]))
     else:
         sig = None
